@@ -138,6 +138,15 @@ def _normalise_visit(fnode):
     if binds:
         fn = Sub().visit(fn)
         fn.body = [st for st in fn.body if not (isinstance(st, ast.Assign) and len(st.targets) == 1 and isinstance(st.targets[0], ast.Name) and st.targets[0].id in binds)]
+    # single-exit form:  if hit: A else: B; <tail>   ->   if hit: A; <tail>   followed by  B; <tail>
+    for k, st in enumerate(fn.body):
+        if isinstance(st, ast.If) and st.orelse and _hit_test(st.test) is not None and not isinstance(st.body[-1], (ast.Return, ast.Raise)):
+            tail = fn.body[k + 1:]
+            st2 = ast.If(test=st.test, body=list(st.body) + [copy.deepcopy(x) for x in tail], orelse=[])
+            ast.copy_location(st2, st)
+            fn.body = fn.body[:k] + [st2] + list(st.orelse) + tail
+            ast.fix_missing_locations(fn)
+            break
     out = []
     for k, st in enumerate(fn.body):
         if isinstance(st, ast.Try) and len(st.handlers) == 1 and not st.finalbody and len(st.body) == 1 and isinstance(st.body[0], ast.Assign) \
